@@ -807,14 +807,26 @@ class ComputeGraph(MultiDiGraph):
         # expressions and their past() calls can be detected.
         non_de_exprs: dict = {}
         non_de_args: list = []
+        slot_exprs: dict = {}
         for var, update in self.var_updates['non-DEs'].items():
             nde_var = self.get_var(var)
             try:
                 args, expr = self._node_to_expr(update)
             except Exception:
                 continue
-            non_de_exprs[nde_var.symbol] = expr
+            target = getattr(nde_var, 'expr', None)
+            if target is not None and getattr(target.func, '__name__', '') == 'index' and len(target.args) == 2:
+                # assignment to a single slot of a buffer variable: `index(buffer, i) = ...`
+                slot_exprs.setdefault(target.args[0], {})[target.args[1]] = expr
+            else:
+                non_de_exprs[nde_var.symbol] = expr
             non_de_args.extend(args)
+
+        # a buffer that is filled slot by slot stands for the collection of its slot expressions, so that delayed terms
+        # which reach the vector field through such a buffer are found as well
+        for buffer, slots in slot_exprs.items():
+            if buffer not in non_de_exprs:
+                non_de_exprs[buffer] = sp.Function(str(buffer))(*[slots[k] for k in sorted(slots, key=str)])
 
         def _expand_non_de(expr):
             """Substitute non-DE symbols with their full expressions."""
